@@ -123,6 +123,11 @@ func (mdb *MassDBV1) prePlotWork(cache *MemCache) error {
 
 	var logCheckpointInterval = hmA.volume / 50
 	var checkpoint = hmA.ReadCheckpoint()
+	if checkpoint < hmA.volume {
+		// windows cover an even number of records: resume from an even position
+		// (files written by earlier versions may hold start+1)
+		checkpoint -= checkpoint & 1
+	}
 	logging.CPrint(logging.INFO, fmt.Sprintf("load checkpoint for HashMapA: %d/%d (%d/%d)", checkpoint, hmA.volume, checkpoint/logCheckpointInterval, 50),
 		logging.LogFormat{"bit_length": mdb.bl, "pub_key": hex.EncodeToString(mdb.pubKey.SerializeCompressed())})
 
@@ -177,7 +182,7 @@ func (mdb *MassDBV1) prePlotWork(cache *MemCache) error {
 		hmA.data.Sync() // write pre-plot data first
 		verifPoint("data-synced", "A", uint64(startPoint), uint64(endPoint))
 
-		hmA.checkpoint = startPoint + 1
+		hmA.checkpoint = endPoint
 		hmA.UpdateCheckpoint()
 		verifPoint("checkpoint-written", "A", uint64(startPoint), uint64(endPoint))
 		hmA.data.Sync() // then write new checkpoint
@@ -272,7 +277,7 @@ func (mdb *MassDBV1) plotWork(cache *MemCache) error {
 		hmB.data.Sync() // write plot data first
 		verifPoint("data-synced", "B", uint64(startPoint), uint64(endPoint))
 
-		hmB.checkpoint = startPoint + 1
+		hmB.checkpoint = endPoint
 		hmB.UpdateCheckpoint()
 		verifPoint("checkpoint-written", "B", uint64(startPoint), uint64(endPoint))
 		hmB.data.Sync() // then update checkpoint
